@@ -26,6 +26,7 @@ type HarnessCfg struct {
 	Tier      string         `json:"tier"` // "" = both, "thorough" = thorough only
 	Native    bool           `json:"native"`
 	MaxPaths  int            `json:"maxpaths"`
+	MustReach []string       `json:"must_reach"`
 	TimeoutS  int            `json:"timeout_s"`
 	What      string         `json:"what"`
 	Solver    string         `json:"solver"` // "" = z3, "cvc5"
@@ -153,6 +154,20 @@ func main() {
 		results = append(results, res)
 		fmt.Printf("  %-28s paths=%d nontrivial=%d obligations=%d discharged=%d queries=%d solver=%v reach=%d viol=%d known=%d incon=%d\n",
 			hc.Name, res.Paths, res.Nontrivial, res.Oblig, res.Disch, res.Queries, res.SolverTime.Round(time.Millisecond), len(res.Reach), len(res.Viol), len(res.KnownHit), len(res.Incon))
+		if *verbose {
+			fmt.Printf("    reached: %s\n", strings.Join(sortedKeys(res.Reach), ", "))
+		}
+		// vacuity guard: the witnesses a harness is registered with must still be reachable, otherwise
+		// "no violation" would only mean that the checked point is never arrived at
+		if len(res.Viol) == 0 {
+			for _, l := range hc.MustReach {
+				if _, ok := res.Reach[l]; !ok {
+					fmt.Printf("INCONCLUSIVE: %s: vacuous - reachability witness %q was not reached on the current tree\n", hc.Name, l)
+					res.Incon["vacuous: witness "+l+" not reached"]++
+					exit = 2
+				}
+			}
+		}
 	}
 	// cross-solver check of verdict queries (thorough)
 	cross := map[string]int{}
